@@ -308,12 +308,10 @@ def r4_structure(ctx, repo, cls):
     for p in Enumerator(loop_counts=(0, 1)).function_paths(init):
         if p.outcome == "raise":
             continue
-        mode = None
-        for e in p.events:
-            if e.kind == "guard" and isinstance(e.node, ast.Compare) and e.val and "mode" in text(e.node.left) and is_const(e.node.comparators[0]):
-                mode = const_value(e.node.comparators[0])
+        modes = feasible_modes(p, selfn)
         called = any((access_path(c.func) or "") in (selfn + "._create_structure", selfn + ".read_from_datastore") for e in p.events if e.kind == "stmt" for c in calls_in(e.node))
-        if mode in ("write", "rewrite") and not called:
+        # a path taken ONLY in write modes must have built (or read) the structure
+        if modes and modes <= WRITE_MODES and not called:
             badi = badi or p
     if badi:
         ctx.violated("R4", "SqliteDataStore.__init__", where(mod, init), "in mode write/rewrite the constructor can return without creating or reading the structure (path [%s])" % badi.describe(5), key="constructor")
